@@ -100,19 +100,28 @@ def strip_comments(src):
     return ''.join(out)
 
 
-def lean_sources():
-    for root, _dirs, files in os.walk(LEAN):
-        if '.lake' in root:
+def import_closure(module):
+    """files of this project transitively imported by `module` (dotted name)"""
+    seen, todo = {}, [module]
+    while todo:
+        m = todo.pop()
+        if m in seen:
             continue
-        for f in files:
-            if f.endswith('.lean'):
-                yield os.path.join(root, f)
+        path = os.path.join(LEAN, *m.split('.')) + '.lean'
+        if not os.path.exists(path):
+            continue
+        seen[m] = path
+        for line in open(path):
+            mm = re.match(r'\s*(?:public\s+)?import\s+(\S+)', line)
+            if mm and (mm.group(1).startswith('SuppModel') or mm.group(1).startswith('Audit')):
+                todo.append(mm.group(1))
+    return sorted(seen.values())
 
 
-def grep_forbidden():
-    """-> list of 'file:line: text' for forbidden constructs outside comments"""
+def grep_forbidden(module):
+    """-> list of 'file:line: text' for forbidden constructs (outside comments) in the import closure of `module`"""
     hits = []
-    for path in lean_sources():
+    for path in import_closure(module):
         code = strip_comments(open(path).read())
         for m in FORBIDDEN.finditer(code):
             ln = code.count('\n', 0, m.start()) + 1
@@ -157,7 +166,7 @@ def audit(prop, extra_modules=()):
             bad = [a for a in axioms[n] if a not in ALLOWED_AXIOMS]
             if bad:
                 problems.append('theorem %s depends on %s' % (n, bad))
-    problems += ['forbidden construct: ' + h for h in grep_forbidden()]
+    problems += ['forbidden construct: ' + h for h in grep_forbidden('SuppModel.Props.' + prop)]
     return not problems, axioms, problems, cmd
 
 
@@ -170,10 +179,11 @@ def leanchecker(modules, timeout=1500):
 
 # --------------------------------------------------------------------------- driver
 
-def ask_driver(requests, timeout=900):
-    """run the compiled model driver on a batch of request objects -> list of replies"""
+def ask_driver(requests, exe='driver', timeout=900):
+    """run a compiled model driver on a batch of request objects -> list of replies"""
     if not requests:
         return []
+    DRIVER = os.path.join(LEAN, '.lake', 'build', 'bin', exe)
     data = '\n'.join(json.dumps(r, separators=(',', ':')) for r in requests) + '\n'
     p = subprocess.run([DRIVER], input=data, stdout=subprocess.PIPE, stderr=subprocess.PIPE, text=True, timeout=timeout)
     lines = p.stdout.splitlines()
@@ -231,7 +241,7 @@ class Check:
             self.broken.append(name + ((': ' + detail) if detail else ''))
             log('[%s] BROKEN %s %s' % (self.prop, name, detail[:2000]))
 
-    def prove(self, extra_targets=('driver',), extra_audit_modules=()):
+    def prove(self, extra_targets=('driver',), extra_audit_modules=(), thorough_recheck=True):
         """build Props/<prop> (+ driver) and audit axioms; each theorem is one obligation"""
         ok, out = lake_build(['SuppModel.Props.' + self.prop])
         ns, names = property_theorems(self.prop)
@@ -248,6 +258,10 @@ class Check:
             rest = [p for p in problems if not any((' ' + n + ' ') in (' ' + p + ' ') for n in names)]
             self.oblige('axiom/forbidden-construct audit', not rest, '; '.join(rest))
             self.extra['axioms'] = axioms
+        if ok and self.tier == 'thorough' and thorough_recheck:
+            mods = ['SuppModel.Props.' + self.prop]
+            cok, cout = leanchecker(mods)
+            self.oblige('leanchecker re-check of ' + ' '.join(mods), cok, '' if cok else cout)
         if extra_targets:
             ok2, out2 = lake_build(list(extra_targets))
             if not ok2:
